@@ -315,6 +315,13 @@ def scan_index(fn, name="i"):
                                 src = d[2].rv.ops[0].place.local
                                 if fn.local_name(src) is not None and fn.local_ty(src) == "usize":
                                     cnt[src] = cnt.get(src, 0) + 1
+    # `args.get(i)` in place of `args[i]`
+    for b, t in fn.calls():
+        if t.j.get("callee_name") in ("get", "get_unchecked") and len(t.args) == 2 and "slice" in (t.callee or "") and t.args[1].place is not None and t.args[1].place.is_local():
+            src = prim.user_local_behind(fn, t.args[1])
+            recv = prim.origin_of_operand(fn, t.args[0]).strip()
+            if src is not None and fn.local_ty(src) == "usize" and any(x.k == "arg" for x in recv.walk()):
+                cnt[src] = cnt.get(src, 0) + 1
     if not cnt:
         return []
     best = max(cnt.items(), key=lambda kv: kv[1])
